@@ -848,6 +848,47 @@ func main() {
 		stats["double accepted"]++
 		out = append(out, d)
 	}
+	// (7) "dirty stack" programs: every accepted production/optional sentence behind a statement
+	//     that leaves nodes, tokens and lists in the parser's value-stack slots at every depth
+	//     (right-nested assignments put nodes at even offsets, the same behind "echo" at odd
+	//     offsets, nested calls leave lists). goyacc starts every action with
+	//     yyVAL = yyS[yyp+1]: an empty production that does not set $$ hands the stale slot on.
+	dirty := []string{
+		"$a = $b = $c = $d = $e = $f = $g = $h = 1 ;",
+		"echo $a = $b = $c = $d = $e = $f = $g = $h = 1 ;",
+		"f ( g ( h ( i ( 1 , 2 ) , 3 ) , 4 ) , 5 ) ;",
+		"echo f ( g ( h ( i ( 1 , 2 ) , 3 ) , 4 ) , 5 ) ;",
+	}
+	for k := 0; k < n0; k++ {
+		s := out[k]
+		if s.Class != "production" && s.Class != "optional" {
+			continue
+		}
+		const open = "<?php "
+		if !strings.HasPrefix(s.Src, open) || len(s.Src) <= len(open) || len(s.Src) > 200 {
+			continue
+		}
+		body := s.Src[len(open):]
+		if strings.HasPrefix(body, "namespace") || strings.HasPrefix(body, "declare") || strings.HasPrefix(body, "use ") {
+			// must stay the first statement
+			continue
+		}
+		for di, d := range dirty {
+			src := open + d + " " + body
+			if seen[src] {
+				continue
+			}
+			e := Snip{Src: src, Origin: fmt.Sprintf("%s/dirty%d", s.Origin, di), Class: "dirty"}
+			e.OK5, e.OK72, e.OK74 = accepted(src, 5, 6), accepted(src, 7, 2), accepted(src, 7, 4)
+			if (s.OK5 && !e.OK5) || (s.OK72 && !e.OK72) || (s.OK74 && !e.OK74) {
+				stats["dirty not accepted"]++
+				continue
+			}
+			seen[src] = true
+			stats["dirty accepted"]++
+			out = append(out, e)
+		}
+	}
 	var keys []string
 	for k := range stats {
 		keys = append(keys, k)
